@@ -58,9 +58,18 @@ impl SyncVecRd {
     #[inline]
     pub fn wait_for(&self, end: usize) -> std::io::Result<usize> {
         let (lock, cvar) = &*self.decoded;
+        #[cfg(jubako_verif)]
+        crate::verif_api::event(crate::verif_api::ev::WAIT_BEGIN, self.buffer as usize, end, 0);
         let progress = cvar
             .wait_while(lock.lock().unwrap(), |p| p.decoded < end && !p.failed)
             .unwrap();
+        #[cfg(jubako_verif)]
+        crate::verif_api::event(
+            crate::verif_api::ev::WAIT_END,
+            self.buffer as usize,
+            end,
+            progress.decoded * 2 + progress.failed as usize,
+        );
         if progress.decoded < end {
             return Err(std::io::Error::new(
                 std::io::ErrorKind::InvalidData,
@@ -84,6 +93,8 @@ impl SyncVecRd {
     #[inline]
     fn slice(&self) -> &[u8] {
         let size = self.current_size();
+        #[cfg(jubako_verif)]
+        crate::verif_api::event(crate::verif_api::ev::SLICE, self.buffer as usize, size, 0);
         unsafe { std::slice::from_raw_parts(self.buffer, size) }
     }
 }
@@ -130,22 +141,32 @@ fn decode_to_end<T: Read + Send>(
             .by_ref()
             .take(size as u64)
             .read_to_end(&mut buffer.data);
+        #[cfg(jubako_verif)]
+        let id = buffer._arc.as_ptr() as usize;
+        #[cfg(jubako_verif)]
+        crate::verif_api::event(crate::verif_api::ev::CHUNK, id, buffer.data.len(), 0);
         let (lock, cvar) = &*buffer.decoded;
         let mut progress = lock.lock().unwrap();
         match read {
             // The compressed stream ends before the expected size.
             Ok(0) => {
                 progress.failed = true;
+                #[cfg(jubako_verif)]
+                crate::verif_api::event(crate::verif_api::ev::FAIL, id, progress.decoded, 0);
                 cvar.notify_all();
                 return Err(std::io::ErrorKind::UnexpectedEof.into());
             }
             Ok(read) => {
                 uncompressed += read;
                 progress.decoded = uncompressed;
+                #[cfg(jubako_verif)]
+                crate::verif_api::event(crate::verif_api::ev::PUBLISH, id, uncompressed, 0);
                 cvar.notify_all();
             }
             Err(e) => {
                 progress.failed = true;
+                #[cfg(jubako_verif)]
+                crate::verif_api::event(crate::verif_api::ev::FAIL, id, progress.decoded, 0);
                 cvar.notify_all();
                 return Err(e);
             }
